@@ -151,7 +151,13 @@ const POWI_EXPS: [i32; 24] = [
 
 fn powi_base(rng: &mut Rng, s: Lay) -> u128 {
     let one = 1u128 << s.f;
-    let v = match rng.below(14) {
+    let v = match rng.below(16) {
+        14 | 15 => {
+            // tiny and small power-of-two magnitudes 2^-k (running powers underflow to exactly 0)
+            let k = 1 + rng.below(s.f as u64) as u32;
+            let m = one >> k;
+            if s.signed && rng.chance(1, 2) { m.wrapping_neg() } else { m }
+        }
         0 => 0,
         1 => one,
         2 => one.wrapping_neg(),
@@ -197,12 +203,23 @@ where
         let x = gen_trans_operand(&mut rng, ls, ld, 1);
         ev_logs::<S, D>(ev, ls, ld, "exp", x, 0);
         // pow: base general-positive (sometimes 0 / negative), exponent an exp-style argument scaled down
-        let x = match rng.below(8) {
+        let x = match rng.below(9) {
             0 => 0,
             1 => gen_bits(&mut rng, ls),
+            2 => {
+                // bases in (0, 1]: 1, 1 - 2^-k, 2^-k
+                let one = 1u128 << ls.f;
+                let k = 1 + rng.below(ls.f as u64 - 1) as u32;
+                *rng.pick(&[one, one - (one >> k), one >> k, one >> 1])
+            }
             _ => gen_trans_operand(&mut rng, ls, ld, 0),
         };
-        let y = match rng.below(8) {
+        let y = match rng.below(9) {
+            8 => {
+                // whole-number exponents of every size (with the base class below this reaches bases <= 1)
+                let k = *rng.pick(&[2i64, 3, 10, 100, 250, 251, 1000, 65536, -2, -3, -250, -1000]);
+                ((k as i128 as u128) << ls.f) & ls.mask()
+            }
             0 => 0,
             1 => 1u128 << ls.f,
             2 => (rng.range(-6, 6) as i128 as u128) << ls.f & ls.mask(),
